@@ -12,3 +12,4 @@ import FpVerif.Properties.C11
 import FpVerif.Properties.C17
 import FpVerif.Properties.C06
 import FpVerif.Properties.C07
+import FpVerif.Properties.C14
